@@ -621,15 +621,18 @@ func c17Run(c *Ctx, hook func(bt *scratch.Batch) error) error {
 						}
 					}
 				}
-				own := k.mi.m.Headers[len(k.mi.m.Headers)-1]
-				carriesOwn := false
-				for _, p := range sent {
-					if strings.EqualFold(p[0], own.Name) {
-						carriesOwn = true
+				// routes that declare method headers end with one required header no other route has
+				if nh := len(k.mi.m.Headers); nh > 0 {
+					own := k.mi.m.Headers[nh-1]
+					carriesOwn := false
+					for _, p := range sent {
+						if strings.EqualFold(p[0], own.Name) {
+							carriesOwn = true
+						}
 					}
-				}
-				if !carriesOwn && jsonInt(o["called"]) > 0 {
-					res.Violation("own_route_config_missing", fmt.Sprintf("%s: dispatched without the route's own required header %s", label, own.Name), replay)
+					if !carriesOwn && jsonInt(o["called"]) > 0 {
+						res.Violation("own_route_config_missing", fmt.Sprintf("%s: dispatched without the route's own required header %s", label, own.Name), replay)
+					}
 				}
 				// correspondence with the model
 				m := rd.model[k]
